@@ -5,11 +5,102 @@
 package c17
 
 import (
+	"encoding/json"
 	"time"
 
 	"verifharness/internal/core"
 	"verifharness/internal/opsim"
 )
+
+// Input is either an operator scenario or a case of class CHang (hang.go).
+type Input struct {
+	Scenario *opsim.Scenario `json:"scenario,omitempty"`
+	Hang     *HangIn         `json:"hang,omitempty"`
+	Acts     []opsim.Action  `json:"acts,omitempty"` // shrink key: mirrors Scenario.Acts
+}
+
+// UnmarshalJSON also accepts the earlier replay files of C17, whose input is a bare scenario.
+func (in *Input) UnmarshalJSON(b []byte) error {
+	var probe map[string]json.RawMessage
+	if err := json.Unmarshal(b, &probe); err != nil {
+		return err
+	}
+	_, isScenario := probe["scenario"]
+	_, isHang := probe["hang"]
+	if !isScenario && !isHang {
+		var sc opsim.Scenario
+		if err := json.Unmarshal(b, &sc); err != nil {
+			return err
+		}
+		*in = Input{Scenario: &sc}
+		return nil
+	}
+	type plain Input
+	var p plain
+	if err := json.Unmarshal(b, &p); err != nil {
+		return err
+	}
+	*in = Input(p)
+	return nil
+}
+
+type Obs struct {
+	Trace *opsim.Trace `json:"trace,omitempty"`
+	Hang  *HangObs     `json:"hang,omitempty"`
+}
+
+func Run(in Input) Obs {
+	if in.Hang != nil {
+		o := RunHang(*in.Hang)
+		return Obs{Hang: &o}
+	}
+	sc := *in.Scenario
+	if len(in.Acts) > 0 {
+		sc.Acts = in.Acts
+	}
+	tr := opsim.RunScenario(sc)
+	return Obs{Trace: &tr}
+}
+
+func Render(in Input, obs *Obs, crash string) core.Case {
+	if in.Hang != nil {
+		var o *HangObs
+		if obs != nil {
+			o = obs.Hang
+		}
+		return RenderHang(*in.Hang, o, crash)
+	}
+	sc := *in.Scenario
+	if len(in.Acts) > 0 {
+		sc.Acts = in.Acts
+	}
+	var tr *opsim.Trace
+	if obs != nil {
+		tr = obs.Trace
+	}
+	c := opsim.Render(sc, tr, crash)
+	c.Coq = "COp " + c.Coq
+	return c
+}
+
+func Explicit(in Input, obs *Obs) Input {
+	if in.Hang != nil || obs == nil || obs.Trace == nil {
+		return in
+	}
+	base := *in.Scenario
+	if len(in.Acts) > 0 {
+		base.Acts = in.Acts
+	}
+	sc := opsim.ExplicitInput(base, obs.Trace)
+	acts := sc.Acts
+	sc.Acts = nil
+	return Input{Scenario: &sc, Acts: acts}
+}
+
+func scen(sc opsim.Scenario, stream string) core.In[Input] {
+	s := sc
+	return core.In[Input]{Input: Input{Scenario: &s}, Stream: stream}
+}
 
 var profile = opsim.Profile{Name: "c17", MaxHooks: 3, Steps: 24, PFail: 35, PHold: 50, PStop: 9, AfterStop: 10, V0: false, PWait: 60, PShort: 35}
 
@@ -55,16 +146,20 @@ func IdleCorpus(tier string) []opsim.Scenario {
 	return out
 }
 
-func Gen(r *core.Rng, tier string) ([]core.In[opsim.Scenario], bool) {
-	var ins []core.In[opsim.Scenario]
+func Gen(r *core.Rng, tier string) ([]core.In[Input], bool) {
+	var ins []core.In[Input]
 	if tier != "search" {
 		// first: they take real time and run beside everything else
 		for _, sc := range IdleCorpus(tier) {
-			ins = append(ins, core.In[opsim.Scenario]{Input: sc, Stream: "long-idle"})
+			ins = append(ins, scen(sc, "long-idle"))
 		}
 	}
 	for _, sc := range Corpus() {
-		ins = append(ins, core.In[opsim.Scenario]{Input: sc, Stream: "corpus"})
+		ins = append(ins, scen(sc, "corpus"))
+	}
+	for _, h := range HangCases(tier) {
+		hh := h
+		ins = append(ins, core.In[Input]{Input: Input{Hang: &hh}, Stream: "hang"})
 	}
 	n := 60
 	switch tier {
@@ -75,17 +170,17 @@ func Gen(r *core.Rng, tier string) ([]core.In[opsim.Scenario], bool) {
 	}
 	for i := 0; i < n; i++ {
 		sc := opsim.Scenario{Cfg: opsim.GenConfig(r, profile), Seed: int64(r.Next() >> 1), Steps: 6 + r.Intn(profile.Steps), Profile: "c17"}
-		ins = append(ins, core.In[opsim.Scenario]{Input: sc, Stream: "random"})
+		ins = append(ins, scen(sc, "random"))
 	}
 	return ins, false
 }
 
-var Driver = core.Driver[opsim.Scenario, opsim.Trace]{
-	Spec: core.Spec{Property: "C17", Imports: []string{"Op_Model", "Op_Corr", "C17_Spec", "C17_Corr"}, Corr: "C17_Corr", ShrinkKey: "acts",
-		Rule: "operator-level scenarios (see C03) in which Shutdown() is requested at a random step (9% per step) and up to 10 further ticks / kube events / ends of open executions follow; 60% of the failing executions put their queue into a positive back-off delay (a long one, ended by the harness, or - 35% - one shorter than the wait loop's check interval, followed at once by Shutdown or by its natural end), so Shutdown also lands while workers wait in a back-off delay; stream long-idle: Shutdown after the operator has been left alone for 31 s of real time (thorough: also 35, 45, 65 s, with an execution open / a queue in its back-off delay meanwhile), time passing being a stutter step of the model (C17_time_is_stutter); non-trivial = >=4 actions of >=2 kinds with >=2 executions; distinct = distinct (config, action list)"},
+var Driver = core.Driver[Input, Obs]{
+	Spec: core.Spec{Property: "C17", Imports: []string{"Op_Model", "Op_Corr", "C17_Spec", "C17_Locks", "C17_Corr"}, Corr: "C17_Corr", ShrinkKey: "acts",
+		Rule: "operator-level scenarios (see C03) in which Shutdown() is requested at a random step (9% per step) and up to 10 further ticks / kube events / ends of open executions follow; 60% of the failing executions put their queue into a positive back-off delay (a long one, ended by the harness, or - 35% - one shorter than the wait loop's check interval, followed at once by Shutdown or by its natural end), so Shutdown also lands while workers wait in a back-off delay; stream long-idle: Shutdown after the operator has been left alone for 31 s of real time (thorough: also 35, 45, 65 s, with an execution open / a queue in its back-off delay meanwhile), time passing being a stutter step of the model (C17_time_is_stutter); class hang: Shutdown() requested while the main worker is inside an EnableKubernetesBindings handler whose LIST does not return (a reactor on the fake cluster), 1-3 other queues with open executions, queued tasks and ticks arriving afterwards - Shutdown must return, the other workers stop, nothing starts; every such case carries the lock program translated from the current source (the functions taking mgr.m and tqs.m, go/ast) on which Coq evaluates lock_ok (C17_blocked_threads_hold_no_lock); non-trivial = >=4 actions of >=2 kinds with >=2 executions; distinct = distinct (config, action list)"},
 	Gen:      Gen,
-	Run:      opsim.RunScenario,
-	Render:   func(in opsim.Scenario, obs *opsim.Trace, crash string) core.Case { return opsim.Render(in, obs, crash) },
-	Explicit: opsim.ExplicitInput,
+	Run:      Run,
+	Render:   Render,
+	Explicit: Explicit,
 	PerShard: 40, Workers: 8, CaseTimout: 120 * time.Second,
 }
